@@ -46,6 +46,27 @@
 (*      is ExtKeyUsageCertificateTransparency in the fork (x509.go,        *)
 (*      extKeyUsageOIDs) and an UnknownExtKeyUsage in crypto/x509.         *)
 (* No other difference exists on the explored templates.                   *)
+(*                                                                         *)
+(* Extension order.  RFC 5280 gives the extensions of a certificate as a   *)
+(* SEQUENCE with no prescribed order; the order the standard library's     *)
+(* encoder happens to emit (unknown extensions last) is one of n!.  The    *)
+(* ORDER is a dimension of the well-formed case space: the case carries    *)
+(* the sequence FieldParse walks through (c.ord, a permutation of the      *)
+(* template's extensions).  What is decided about one extension is local   *)
+(* to it: the outcome, every field value and in particular the set of      *)
+(* unhandled critical extensions (uce) are functions of the SET of         *)
+(* extensions (invariant UnhandledIsOrderFree, WellFormedClean for every   *)
+(* order).                                                                 *)
+(*                                                                         *)
+(* History.  Parsing is a FUNCTION of the bytes handed in (third machine,  *)
+(* "history" below): for every sequence of calls, every call returns what  *)
+(* it returns alone (Functional, PerCertificate); the arguments are not    *)
+(* modified and nothing of a call survives it, whichever buffer the        *)
+(* caller used and whatever that buffer held before (ArgsIntact).  The     *)
+(* machine has no variable a call could leave anything in - that IS the    *)
+(* specification; TLC's part is to generate the call sequences (random     *)
+(* walks over objects that differ in one slot, with repetition, through    *)
+(* re-used buffers) that are replayed into the implementation.             *)
 (***************************************************************************)
 EXTENDS Naturals, Sequences, FiniteSets, TLC
 
@@ -69,8 +90,32 @@ TemplateSpace == [exts : SUBSET ExtKinds, name : NameKinds, key : KeyKinds, vali
 ExtOrder == <<"ku", "eku", "bc", "ski", "aki", "aia", "san", "pol", "nc", "crldp", "unkCrit", "unkNon">>
 HasExt(t, e) == IF e = "san" THEN t.exts \cap SANKinds # {} ELSE e \in t.exts
 ExtSeq(t) == SelectSeq(ExtOrder, LAMBDA e : HasExt(t, e))
-\* what FieldParse walks through
+\* what FieldParse walks through (extensions in the encoder's order; a case carries its own order, c.ord)
 Components(t) == <<"spki", "subject", "issuer">> \o ExtSeq(t)
+
+(* ---------------------------------------------------------------------- *)
+(* extension order                                                         *)
+(* ---------------------------------------------------------------------- *)
+CONSTANT PermAll      \* templates with at most PermAll extensions are explored in every order
+
+\* extensions the parser does not interpret: recorded in UnhandledCriticalExtensions iff marked critical
+Uninterpreted == {"unkCrit", "unkNon"}
+
+Rev(s) == [i \in 1..Len(s) |-> s[Len(s) + 1 - i]]
+Rot(s) == IF s = <<>> THEN s ELSE Tail(s) \o <<Head(s)>>
+KnownOf(s) == SelectSeq(s, LAMBDA e : e \notin Uninterpreted)
+UnkOf(s) == SelectSeq(s, LAMBDA e : e \in Uninterpreted)
+UnkFirst(s) == UnkOf(s) \o KnownOf(s)                       \* every uninterpreted extension before every interpreted one
+UnkMid(s) == LET k == KnownOf(s)
+                 h == Len(k) \div 2
+             IN SubSeq(k, 1, h) \o UnkOf(s) \o SubSeq(k, h + 1, Len(k))
+Perms(s) == {p \in [1..Len(s) -> {s[i] : i \in 1..Len(s)}] : \A i, j \in 1..Len(s) : i # j => p[i] # p[j]}
+
+\* the orders explored for a well-formed template: all of them when there are few extensions, otherwise the
+\* encoder's, its reverse, a rotation, and the uninterpreted extensions first / in the middle (both directions)
+Orders(t) == LET s == ExtSeq(t) IN
+  IF Len(s) <= PermAll THEN Perms(s)
+  ELSE {s, Rev(s), Rot(s), UnkFirst(s), UnkMid(s), Rev(UnkMid(s))}
 
 (* ---------------------------------------------------------------------- *)
 (* mutations                                                               *)
@@ -224,28 +269,40 @@ Applicable(t, m) == \A n \in m.needs : Needs(t, n)
 \* a case: a template with one applicable mutation ("none" included)
 IsCase(x) == x.tpl \in Templates /\ x.mut \in MutationTable /\ Applicable(x.tpl, x.mut)
 
+\* the orders a case is explored in: every order of Orders for the well-formed template; a defect inside one
+\* extension whose outcome the contract pins (fatal / nonFatal) is met in the encoder's order and in the reverse
+\* one (the extensions before / after it swap sides)
+OrdersFor(t, m) ==
+  IF m.name = "none" THEN Orders(t)
+  ELSE IF m.stage = "Field" /\ m.comp \notin {"spki", "subject", "issuer"} /\ m.effect \in {"fatal", "nonFatal"}
+         THEN {ExtSeq(t), Rev(ExtSeq(t))}
+  ELSE {ExtSeq(t)}
+
 (* ---------------------------------------------------------------------- *)
 (* the pipeline (one object)                                               *)
 (* ---------------------------------------------------------------------- *)
 VARIABLES
-  c,       \* the input: template and mutation
+  c,       \* the input: template, mutation and the order of the extensions
   stage,   \* StrictDER, LaxDER, Trailing, Field, Done ("off" while the concatenation machine runs)
   todo,    \* components FieldParse still has to fill
   nfe,     \* non-fatal findings: <<where, sure>>; sure = FALSE when the contract leaves reporting open
+  uce,     \* extensions recorded as unhandled critical so far
   obj,     \* "obj" once the object under construction exists, "nil" otherwise
   err      \* "nil", "nonFatal", "fatal" - meaningful in stage Done
 
-vars == <<c, stage, todo, nfe, obj, err>>
+vars == <<c, stage, todo, nfe, uce, obj, err>>
 
 PipeInit ==
-  /\ \E t \in Templates, m \in MutationTable : Applicable(t, m) /\ c = [tpl |-> t, mut |-> m]
+  /\ \E t \in Templates, m \in MutationTable :
+        Applicable(t, m) /\ \E o \in OrdersFor(t, m) : c = [tpl |-> t, mut |-> m, ord |-> o]
   /\ stage = "StrictDER"
   /\ todo = <<>>
   /\ nfe = {}
+  /\ uce = {}
   /\ obj = "nil"
   /\ err = "nil"
 
-PipeOff == c = None /\ stage = "off" /\ todo = <<>> /\ nfe = {} /\ obj = "nil" /\ err = "nil"
+PipeOff == c = None /\ stage = "off" /\ todo = <<>> /\ nfe = {} /\ uce = {} /\ obj = "nil" /\ err = "nil"
 
 HitsDER == c.mut.stage = "DER" /\ c.mut.effect \in {"break", "laxOK"}
 Open == {"tolerated", "free"}
@@ -253,7 +310,7 @@ Open == {"tolerated", "free"}
 Fail == /\ stage' = "Done"
         /\ obj' = "nil"
         /\ err' = "fatal"
-        /\ UNCHANGED <<c, todo, nfe>>
+        /\ UNCHANGED <<c, todo, nfe, uce>>
 
 \* strict DER decoding of the whole object
 StrictDER ==
@@ -261,7 +318,7 @@ StrictDER ==
   /\ IF HitsDER THEN stage' = "LaxDER" /\ UNCHANGED nfe
      ELSE /\ stage' = "Trailing"
           /\ nfe' = IF c.mut.stage = "DER" /\ c.mut.effect \in Open THEN {<<"der", FALSE>>} ELSE nfe
-  /\ UNCHANGED <<c, todo, obj, err>>
+  /\ UNCHANGED <<c, todo, uce, obj, err>>
 
 \* second attempt with the relaxed decoder; the strict error is kept as a non-fatal finding
 LaxDER ==
@@ -269,7 +326,7 @@ LaxDER ==
   /\ IF c.mut.effect = "break" THEN Fail
      ELSE /\ stage' = "Trailing"
           /\ nfe' = nfe \cup {<<"der", TRUE>>}
-          /\ UNCHANGED <<c, todo, obj, err>>
+          /\ UNCHANGED <<c, todo, uce, obj, err>>
 
 \* "free" at the DER stage: the contract does not say whether a reading exists
 FreeDER ==
@@ -281,11 +338,15 @@ TrailingCheck ==
   /\ stage = "Trailing"
   /\ IF c.mut.stage = "Trailing" THEN Fail
      ELSE /\ stage' = "Field"
-          /\ todo' = Components(c.tpl)
+          /\ todo' = <<"spki", "subject", "issuer">> \o c.ord
           /\ obj' = "obj"
-          /\ UNCHANGED <<c, nfe, err>>
+          /\ UNCHANGED <<c, nfe, uce, err>>
 
-\* one component; the mutation, if it lives here, decides
+\* an uninterpreted extension is critical when the encoder marked it so (or the mutation did)
+MarkedCritical(h) == h = "unkCrit" \/ (h = "unkNon" /\ c.mut.name = "unkNonMadeCritical")
+
+\* one component; the mutation, if it lives here, decides.  Whether an extension is recorded as unhandled
+\* critical is decided by that extension alone - nothing is carried from one component to the next.
 FieldParse ==
   /\ stage = "Field"
   /\ todo # <<>>
@@ -298,6 +359,7 @@ FieldParse ==
         /\ nfe' = IF hit /\ c.mut.effect = "nonFatal" THEN nfe \cup {<<h, TRUE>>}
                   ELSE IF hit /\ c.mut.effect \in Open THEN nfe \cup {<<h, FALSE>>}
                   ELSE nfe
+        /\ uce' = IF h \in Uninterpreted /\ MarkedCritical(h) THEN uce \cup {h} ELSE uce
         /\ UNCHANGED <<c, stage, obj, err>>
 
 \* all components filled: the findings become the (non-fatal) error
@@ -308,7 +370,7 @@ Finish ==
   /\ err' \in IF nfe = {} THEN {"nil"}
               ELSE IF \E f \in nfe : f[2] THEN {"nonFatal"}
               ELSE {"nil", "nonFatal"}
-  /\ UNCHANGED <<c, todo, nfe, obj>>
+  /\ UNCHANGED <<c, todo, nfe, uce, obj>>
 
 PipeNext == StrictDER \/ LaxDER \/ FreeDER \/ TrailingCheck \/ FieldParse \/ Finish
 
@@ -327,7 +389,7 @@ TypeOK == /\ stage \in {"StrictDER", "LaxDER", "Trailing", "Field", "Done", "off
 Coherent == stage = "Done" => /\ Result \in Good
                               /\ (IsFatal(err) <=> obj = "nil")
 
-\* a well-formed certificate parses with no error at all
+\* a well-formed certificate parses with no error at all (in whichever order its extensions come)
 WellFormedClean == (stage = "Done" /\ c.mut.name = "none") => Result = <<"obj", "nil">>
 
 \* no object exists before the input has been read as DER and found to end where the object ends
@@ -335,6 +397,16 @@ NoObjectBeforeDER == stage \in {"StrictDER", "LaxDER", "Trailing"} => obj = "nil
 
 \* a finding the contract is sure about is never dropped
 FindingsReported == (stage = "Done" /\ obj = "obj" /\ \E f \in nfe : f[2]) => err = "nonFatal"
+
+\* the unhandled critical extensions of a well-formed certificate are a function of the SET of its extensions:
+\* exactly the uninterpreted ones the encoder marked critical, wherever they stand
+UCE(t) == {e \in Uninterpreted \cap t.exts : e = "unkCrit"}
+UnhandledIsOrderFree == (stage = "Done" /\ c.mut.name = "none") => uce = UCE(c.tpl)
+
+\* the order is a permutation of the template's extensions
+OrderIsPermutation == stage = "StrictDER" =>   \* (c never changes: checked where a case starts)
+                                  /\ Len(c.ord) = Len(ExtSeq(c.tpl))
+                                  /\ {c.ord[k] : k \in 1..Len(c.ord)} = {ExtSeq(c.tpl)[k] : k \in 1..Len(c.ord)}
 
 Class(r) == IF r = <<"obj", "nil">> THEN "ok" ELSE IF r = <<"obj", "nonFatal">> THEN "nonFatal" ELSE "fatal"
 
@@ -406,17 +478,118 @@ ConcatFields ==
           /\ lnfe' = (lnfe \/ parts[i] = "nfField")
           /\ UNCHANGED <<parts, phase, list, lerr>>
 
-\* the two machines share the module; each run drives one of them
-Init == PipeInit /\ ConcatOff
-Next == PipeNext /\ UNCHANGED cvars
-Spec == Init /\ [][Next]_<<vars, cvars>>
-
-ConcatInit == PipeOff /\ ConcatStart
-ConcatNext == (ConcatDER \/ ConcatFields) /\ UNCHANGED vars
-
 Join(a, b) == IF "fatal" \in {a, b} THEN "fatal" ELSE IF "nonFatal" \in {a, b} THEN "nonFatal" ELSE "ok"
 RECURSIVE JoinAll(_)
 JoinAll(s) == IF s = <<>> THEN "ok" ELSE Join(PartAlone(Head(s)), JoinAll(Tail(s)))
+
+(* ---------------------------------------------------------------------- *)
+(* history: parsing is a function of the bytes handed in                   *)
+(*                                                                         *)
+(* An OBJECT is a certificate of one of a few shapes (templates) in one of *)
+(* eight variants - the issuer name, the subject name and the alternative  *)
+(* names each in one of two spellings OF EQUAL LENGTH, everything else     *)
+(* byte for byte the same - with at most one mutation of the table.  Two   *)
+(* objects of a shape share whatever a too-coarse key could be made of:    *)
+(* length, layout, offsets, every field but one.                           *)
+(* A CALL hands one object (entry "cert": ParseCertificate, "tbs":         *)
+(* ParseTBSCertificate on its TBSCertificate) or the concatenation of the  *)
+(* previous call's last object and a new one (entry "list":                *)
+(* ParseCertificates) to the parser                                        *)
+(*    buf = "fresh"   in a slice of its own, never seen before             *)
+(*    buf = "own"     in the slice this object is kept in for the whole    *)
+(*                    history (a second call sees the very same slice)     *)
+(*    buf = "shared"  in the caller's one re-used buffer, overwritten for  *)
+(*                    the purpose (a network reader's buffer).             *)
+(* The machine has no variable in which a call could leave anything: the   *)
+(* result is Parse(entry, objects).                                        *)
+(* ---------------------------------------------------------------------- *)
+CONSTANTS
+  HistShapes,     \* templates the objects are issued from (MC module)
+  HistMutNames,   \* mutations an object may carry; each keeps the envelope and has one sure outcome class
+  HistSlots,      \* the slots in which the objects of a shape vary (a subset of Slots; the others stay 0)
+  HistDepth       \* calls per history
+
+Slots == {"iss", "sub", "san"}
+ASSUME HistSlots \subseteq Slots
+BufModes == {"fresh", "own", "shared"}
+EntryModes == {"cert", "tbs", "list"}
+
+MutByName(n) == CHOOSE m \in MutationTable : m.name = n
+ASSUME \A n \in HistMutNames : (\E m \in MutationTable : m.name = n) /\ PartOf(MutByName(n)) # "" /\ MutByName(n).scope = "tbs"
+
+\* the objects of a history: built once (HistStart) and carried in the variable world, so that the mutation table is
+\* consulted once and not in every state; an object carries its class as a part of a concatenation
+ObjectsOf(shapes, names) ==
+  UNION {{[shape |-> s, iss |-> v[1], sub |-> v[2], san |-> v[3], mut |-> m.name, part |-> PartOf(m)] :
+            v \in (IF "iss" \in HistSlots THEN {0, 1} ELSE {0}) \X (IF "sub" \in HistSlots THEN {0, 1} ELSE {0})
+                     \X (IF "san" \in HistSlots THEN {0, 1} ELSE {0}),
+            m \in {x \in MutationTable : x.name \in names /\ Applicable(s, x)}} : s \in shapes}
+
+PartClass(o) == o.part
+ClassAlone(o) == PartAlone(o.part)
+\* what a result says about the slots of the object it was parsed from
+Ident(o) == [iss |-> o.iss, sub |-> o.sub, san |-> o.san]
+
+\* THE function.  One object: its own outcome.  A list: the join of the parts' outcomes and, unless fatal,
+\* one certificate per part, each what the part gives alone (ConcatLaw, here with the identity of the fields)
+Parse(entry, objs) ==
+  LET cls == JoinAll([k \in 1..Len(objs) |-> PartClass(objs[k])])
+  IN [cls |-> cls, certs |-> IF cls = "fatal" THEN <<>> ELSE [k \in 1..Len(objs) |-> Ident(objs[k])]]
+
+VARIABLES
+  world,    \* the objects calls are made with
+  hist,     \* the calls so far: [entry, objs, buf, ret]
+  shared,   \* what the caller's re-used buffer holds (the objects last written to it)
+  closed    \* the history is complete (export marker)
+
+hvars == <<world, hist, shared, closed>>
+
+HistOff == world = {} /\ hist = <<>> /\ shared = <<>> /\ closed = FALSE
+HistStart == world = ObjectsOf(HistShapes, HistMutNames) /\ hist = <<>> /\ shared = <<>> /\ closed = FALSE
+
+LastObj == hist[Len(hist)].objs[Len(hist[Len(hist)].objs)]
+
+\* the caller puts the bytes where it wants them and calls; the parser reads them and writes nowhere
+Call(entry, o, buf) ==
+  /\ Len(hist) < HistDepth
+  /\ LET objs == IF entry = "list" /\ hist # <<>> THEN <<LastObj, o>> ELSE <<o>>
+     IN /\ hist' = Append(hist, [entry |-> entry, objs |-> objs, buf |-> buf, ret |-> Parse(entry, objs)])
+        /\ shared' = IF buf = "shared" THEN objs ELSE shared
+  /\ UNCHANGED <<world, closed>>
+
+HistFinish == Len(hist) = HistDepth /\ ~closed /\ closed' = TRUE /\ UNCHANGED <<world, hist, shared>>
+
+HistNextAll == \E e \in EntryModes, o \in world, b \in BufModes : Call(e, o, b)
+
+\* every call returns what it returns alone: equal arguments, equal results - wherever in the history, through
+\* whichever buffer, after whatever else
+Functional == \A a, b \in 1..Len(hist) :
+                (hist[a].entry = hist[b].entry /\ hist[a].objs = hist[b].objs) => hist[a].ret = hist[b].ret
+\* ... and what it returns alone is the object's own outcome, with the object's own names
+PerCertificate == \A a \in 1..Len(hist) :
+                    LET h == hist[a] IN
+                    /\ h.ret.cls = JoinAll([k \in 1..Len(h.objs) |-> PartClass(h.objs[k])])
+                    /\ (Len(h.objs) = 1 => h.ret.cls = ClassAlone(h.objs[1]))
+                    /\ (h.ret.cls # "fatal" => /\ Len(h.ret.certs) = Len(h.objs)
+                                               /\ \A k \in 1..Len(h.objs) : h.ret.certs[k] = Parse("cert", <<h.objs[k]>>).certs[1])
+\* the arguments are not modified: the re-used buffer holds what the caller last wrote to it
+SharedWrites == {a \in 1..Len(hist) : hist[a].buf = "shared"}
+ArgsIntact == shared = IF SharedWrites = {} THEN <<>>
+                       ELSE hist[CHOOSE a \in SharedWrites : \A b \in SharedWrites : b <= a].objs
+
+HistTypeOK == /\ Len(hist) <= HistDepth
+              /\ \A a \in 1..Len(hist) : hist[a].entry \in EntryModes /\ hist[a].buf \in BufModes /\ Len(hist[a].objs) \in {1, 2}
+
+\* the three machines share the module; each run drives one of them
+Init == PipeInit /\ ConcatOff /\ HistOff
+Next == PipeNext /\ UNCHANGED <<cvars, hvars>>
+Spec == Init /\ [][Next]_<<vars, cvars, hvars>>
+
+ConcatInit == PipeOff /\ ConcatStart /\ HistOff
+ConcatNext == (ConcatDER \/ ConcatFields) /\ UNCHANGED <<vars, hvars>>
+
+HistInit == PipeOff /\ ConcatOff /\ HistStart
+HistNext == HistNextAll /\ UNCHANGED <<vars, cvars>>
 
 ListClass == IF list.nil THEN "fatal" ELSE IF lerr = "nil" THEN "ok" ELSE "nonFatal"
 
